@@ -23,6 +23,7 @@ def family_list(tier):
         ("class", F.class_family(tier)),
         ("gen", F.gen_family(tier)),
         ("pair", F.pair_family(tier)),
+        ("completion", F.completion_family(tier)),
     ]
     import os
     only = os.environ.get("VERIF_FAMILIES")
@@ -36,7 +37,7 @@ def entry_subset(name, progs, tier):
     stable when a family is edited)."""
     q = tier == "quick"
     k = {"ctlgen": 3 if q else 1, "gen": 3 if q else 1, "destr": 3 if q else 1, "ctl": 7 if q else 16,
-         "pair": 7 if q else 2, "scope": 7 if q else 2, "class": 7 if q else 2, "op": 23 if q else 5}[name]
+         "pair": 7 if q else 2, "completion": 5 if q else 2, "scope": 7 if q else 2, "class": 7 if q else 2, "op": 23 if q else 5}[name]
     if name == "ctl" and not q:
         return [p for p in progs if int(core.sha12(p), 16) % 48 < 3]
     return [p for p in progs if int(core.sha12(p), 16) % (k * 6) < 6] if k > 1 else list(progs)
@@ -166,7 +167,7 @@ def run(chk):
     chk.add(evaluations=total_exec, states=total_states, transitions=total_exec, traces_validated_against_impl=total_exec,
             distinct_nontrivial=nontrivial)
     chk.cov["distinct_outcomes"] = len(outcomes)
-    chk.cov["rule"] = ("E1: complete enumeration of the program families op/ctl/ctlgen/scope/destr/class/gen/pair at this tier's bounds; states = "
+    chk.cov["rule"] = ("E1: complete enumeration of the program families op/ctl/ctlgen/scope/destr/class/gen/pair/completion at this tier's bounds; states = "
                        "distinct program texts; transitions = executions on the real engine (fresh context each; entry modes script, utf16 "
                        "source, hand-polled async with budget 1, host call of __main for the entry subset); each compared with the committed "
                        "V8-derived golden trace; non-trivial = printed a line or completed with something other than undefined")
